@@ -1398,3 +1398,26 @@ package server
 //@   safe slice
 //@   at call deleteValue#1 before
 //@     assert [C14:object-deleted-under-the-key-of-its-collection-and-id] isObjKey(key, collection, id)
+
+// ---------------------------------------------------------------------------
+// C01: the unscoped lookup merges every per-dataset partial after the first into the first one, each exactly once, in
+// dataset order; a single partial is returned as it is; no partial gives no entity. (mergeInto's own shape preconditions
+// - freshly decoded, pairwise distinct entities and lists - are assumed here for the partials of one lookup.)
+//@ unit (*Store).mergePartials
+//@   prop C01
+//@   ghost mergedG int = 0
+//@   requires s != nil
+//@   requires forall i int :: 0 <= i && i < len(partials) ==> partials[i] != nil
+//@   ensures [no-partial-no-entity] len(partials) == 0 ==> result == nil
+//@   ensures [the-first-partial-is-the-merge-target] len(partials) >= 1 ==> result == old(partials[0])
+//@   ensures [every-later-partial-was-merged-once] len(partials) >= 1 ==> mergedG == len(partials) - 1
+//@   at call mergeInto#1 before
+//@     assert [partials-merged-in-order-into-the-first] target == r && source == partials[mergedG + 1] && i == mergedG + 1
+//@     assume target != nil && source != nil && target != source && target.References != nil && source.References != nil && target.Properties != nil && source.Properties != nil && target.References != source.References && target.References != source.Properties && target.References != target.Properties && target.Properties != source.References && target.Properties != source.Properties && source.Properties != source.References
+//@     assume forall k string :: has(target.References, k) && isList(target.References[k]) ==> foreign(cast(target.References[k], "[]interface{}"))
+//@     assume forall k string :: has(source.References, k) && isList(source.References[k]) ==> foreign(cast(source.References[k], "[]interface{}"))
+//@     assume forall a string, b string :: has(target.References, a) && isList(target.References[a]) && has(source.References, b) && isList(source.References[b]) ==> arrOf(cast(target.References[a], "[]interface{}")) != arrOf(cast(source.References[b], "[]interface{}"))
+//@     assume forall a string, b string :: a != b && has(target.References, a) && isList(target.References[a]) && has(target.References, b) && isList(target.References[b]) ==> arrOf(cast(target.References[a], "[]interface{}")) != arrOf(cast(target.References[b], "[]interface{}"))
+//@     ghost mergedG := mergedG + 1
+//@   loop 1
+//@     invariant 1 <= i && i <= len(partials) && mergedG == i - 1 && r == old(partials[0])
